@@ -49,6 +49,7 @@ JOBS = {
         {"cmd": "c05-concurrent", "race": True, "timeout": {"quick": 300, "thorough": 1500},
          "race_anchors": ["cluster.(*simpleCluster).UpdateHosts", "cluster.(*simpleCluster).Snapshot", "cluster.(*clusterManager).GetClusterSnapshot",
                           "cluster.(*hostSet)", "cluster.NewHostSet"]},
+        {"cmd": "c05-membership", "race": False, "batches": {"quick": 2, "thorough": 4}, "timeout": {"quick": 300, "thorough": 1500}},
     ],
     "C06": [
         {"cmd": "c06-draw", "race": False, "timeout": {"quick": 300, "thorough": 1500}},
